@@ -639,6 +639,10 @@ struct Value {
     }
 
     inline bool operator<(const Value &val) const noexcept {
+        if (val.Type() == ValueType::ValuePtr) {
+            return (*this < *(val.value_));
+        }
+
         const ValueType type = Type();
 
         if (type == val.Type()) {
@@ -686,6 +690,10 @@ struct Value {
     }
 
     inline bool operator>(const Value &val) const noexcept {
+        if (val.Type() == ValueType::ValuePtr) {
+            return (*this > *(val.value_));
+        }
+
         const ValueType type = Type();
 
         if (type == val.Type()) {
@@ -733,6 +741,10 @@ struct Value {
     }
 
     inline bool operator<=(const Value &val) const noexcept {
+        if (val.Type() == ValueType::ValuePtr) {
+            return (*this <= *(val.value_));
+        }
+
         const ValueType type = Type();
 
         if (type == val.Type()) {
@@ -780,6 +792,10 @@ struct Value {
     }
 
     inline bool operator>=(const Value &val) const noexcept {
+        if (val.Type() == ValueType::ValuePtr) {
+            return (*this >= *(val.value_));
+        }
+
         const ValueType type = Type();
 
         if (type == val.Type()) {
@@ -827,6 +843,10 @@ struct Value {
     }
 
     inline bool operator==(const Value &val) const noexcept {
+        if (val.Type() == ValueType::ValuePtr) {
+            return (*this == *(val.value_));
+        }
+
         const ValueType type = Type();
 
         if (type == val.Type()) {
